@@ -176,16 +176,25 @@ def run(unit):
             continue
         r.count('evaluations')
         r.count('states')
-        probs = check_term(t, r)
+        probs = [(t, pk, d) for pk, d in check_term(t, r)]
         r.count('validated')
         if mentions(t, 'A'):
             r.count('nontrivial')
+            if n <= 4:
+                # shape family: chains of 2..4 negations directly above every small term that mentions the alias
+                w = t
+                for depth in (1, 2, 3, 4):
+                    w = ('un', 'not', w)
+                    if depth >= 2:
+                        r.count('evaluations')
+                        r.count('states')
+                        probs += [(w, pk, d) for pk, d in check_term(w, r)]
         seen = set()
-        for pk, detail in probs:
-            if pk in seen:
+        for tt, pk, detail in probs:
+            if (pk, tt is t) in seen:
                 continue
-            seen.add(pk)
-            r.violation(signature(t, pk), {'term': t, 'text': _txt(t)}, detail, size=absyn.size(t))
+            seen.add((pk, tt is t))
+            r.violation(signature(tt, pk), {'term': tt, 'text': _txt(tt)}, detail, size=absyn.size(tt))
         if i % 9001 == 0:
             r.sample({'term': _txt(t), 'nodes': n})
     return r
@@ -200,7 +209,7 @@ def replay(w):
 def describe(tier):
     b = bounds(tier)
     return {
-        'rule': f"every boolean term over atoms p q r (x > 0) (y = 1) True False @A.p (@A.x > 0) @B.p with not/and/or/implies/iff and forall/exists @i over xs, {{0,1}}, [0 to 1], @A.xs (bodies may use (@i > 0), (@A.x > @i)) with <= {b['nodes']} nodes; each refactored for aliases A, B and the absent C, as expression and as predicate; x every valuation (truth tables, numbers -1 0 1, arrays [] [0] [0,1]). nontrivial = terms mentioning @A.",
+        'rule': f"every boolean term over atoms p q r (x > 0) (y = 1) True False @A.p (@A.x > 0) @B.p with not/and/or/implies/iff and forall/exists @i over xs, {{0,1}}, [0 to 1], @A.xs (bodies may use (@i > 0), (@A.x > @i)) with <= {b['nodes']} nodes; every term with <= 4 nodes that mentions @A also under chains of 2, 3 and 4 negations; each refactored for aliases A, B and the absent C, as expression and as predicate; x every valuation (truth tables, numbers -1 0 1, arrays [] [0] [0,1]). nontrivial = terms mentioning @A.",
         'bounds': b,
         'exhaustive': True,
         'assumptions': ['reference evaluator; strict connectives'],
